@@ -35,7 +35,7 @@ ASSUMPTIONS = ['at least 3 non-missing entries remain and remaining vectors are 
                'Bures measures excluded', 'sigma_k SPD cond <= 30']
 MEASURES = ['cosine', 'corr', 'spearman', 'kendall', 'tau-a', 'rho-a', 'cosine_cov', 'corr_cov']
 REQUIRED = ['check:common_mask:' + m for m in MEASURES] + \
-           ['check:differing_masks_between', 'check:differing_masks_within', 'check:pool_common_mask',
+           ['check:differing_masks_between', 'check:differing_masks_within', 'check:differing_masks_fit', 'check:pool_common_mask',
             'check:ceiling_common_mask', 'check:fit_common_mask', 'check:mean', 'check:rescale',
             'must_raise_observed']
 REACH = ['_parse_input_rdms', '_parse_nan_vectors', '_cov_weighting', '_cosine_cov_weighted_slow', 'pool_rdm',
@@ -193,6 +193,38 @@ def run_differing(ctx):
             except Exception as exc:
                 ctx.count('must_raise_observed')
                 ctx.count('rejected_with_' + type(exc).__name__)
+
+
+    # regression fits: a component RDM of the model (any, not only the first) or the data missing other entries
+    if k >= 1:
+        nb = int(rng.integers(2, 4))
+        basis = gen.rdm_vectors(rng, nb, n_cond, 'pos')
+        data = gen.rdm_vectors(rng, int(rng.integers(1, 3)), n_cond, 'pos')
+        odd = int(rng.integers(nb + 1))          # nb = the data are the odd one out
+        basis[:, cols1] = np.nan
+        data[:, cols1] = np.nan
+        if odd < nb:
+            basis[odd] = gen.rdm_vectors(rng, 1, n_cond, 'pos')[0]
+            basis[odd, cols2] = np.nan
+        else:
+            data = gen.rdm_vectors(rng, data.shape[0], n_cond, 'pos')
+            data[:, cols2] = np.nan
+        fm = gen.pick(rng, ['cosine', 'corr', 'cosine_cov', 'corr_cov'])
+        fname = gen.pick(rng, ['fit_regress', 'fit_regress_nn'])
+        sig = dict(measure=fm, sigma='none', where='fit_' + ('data' if odd == nb else 'first_component' if odd == 0
+                                                             else 'later_component'), fitter=fname)
+        ctx.case('differing_masks_fit', sig)
+        try:
+            th = (fit_regress if fname == 'fit_regress' else fit_regress_nn)(ModelWeighted('m', RDMs(basis.copy())),
+                                                                             RDMs(data.copy()), method=fm)
+            ctx.fail('differing_masks_fit', sig, f'{fname}: model component {odd if odd < nb else "(data)"} misses other '
+                     f'entries than the rest (same count {k}) but a fit was returned: {np.asarray(th).tolist()}',
+                     dict(basis=basis, data=data, method=fm, missing1=cols1, missing2=cols2))
+        except ValueError:
+            ctx.count('must_raise_observed')
+        except Exception as exc:
+            ctx.count('must_raise_observed')
+            ctx.count('rejected_with_' + type(exc).__name__)
 
 
 POOL_METHODS = ['cosine', 'corr', 'spearman', 'rho-a', 'kendall', 'tau-a', 'euclid']
